@@ -50,7 +50,8 @@ func (x safeEmitPlain) Format(st fmt.State, verb rune) { st.Write([]byte(x.s + "
 //	0 unsafe string Σu     1 unsafe int            2 SafeString(Σs)   3 Safe(Σs)
 //	4 SafeInt              5 regInt (registered)   6 safeEmit(Σs)     7 safeStr (SafeValue type)
 //	8 Safe(int)            9 unsafe []byte (under %s/%x/%q only)
-func c05Leaf(k int, su, ss string, registered bool) (interface{}, interface{}) {
+func c05Leaf(k int, su, ss string, regMode int) (interface{}, interface{}) {
+	registered := regMode == 1
 	switch k {
 	case 0:
 		return su, blankS("")
@@ -91,6 +92,14 @@ func c05Leaf(k int, su, ss string, registered bool) (interface{}, interface{}) {
 		return redact.Unsafe(redact.Safe(ss)), blankLeaf{}
 	case 14:
 		return redact.Safe(redact.Unsafe(ss)), redact.Safe(ss)
+	case 15:
+		// a nil pointer whose POINTER type may be registered (regMode 2):
+		// registration is by exact type, so *regInt registered makes this
+		// operand safe and leaves regInt values (leaf 5) unsafe
+		if regMode == 2 {
+			return (*regInt)(nil), (*regInt)(nil)
+		}
+		return (*regInt)(nil), blankLeaf{}
 	case 10:
 		// a SafeValue with a String method (its text is safe)
 		return safeStringer(ss), safeStringer(ss)
@@ -104,12 +113,12 @@ func c05Leaf(k int, su, ss string, registered bool) (interface{}, interface{}) {
 var c05Formats = []string{"x‹%v y%v|%v", "%5v|%-7v|%05v", "%6v %v %-3v|", "%.1v %v %+v", "%v%v%v"}
 
 // H_c05: exactly the unsafe arguments are enveloped.
-// p = [leaf1, leaf2, leaf3, shape, format, n, registered, prelude]
+// p = [leaf1, leaf2, leaf3, shape, format, n, registry (0 empty, 1 regInt, 2 *regInt), prelude]
 // prelude > 0: an unrelated earlier call (c12History(prelude-1)) runs first
 // shape 0: top-level operands; 1: inside []interface{}; 2: inside struct with interface fields;
 // 3: map[string]interface{}; 4: Sprint
 func H_c05(p []int) {
-	shape, fi, n, reg := p[3], p[4], p[5], p[6] == 1
+	shape, fi, n, reg := p[3], p[4], p[5], p[6]
 	su := vBytes(n)
 	ssb := vBytes(n)
 	for k := range su {
@@ -123,8 +132,10 @@ func H_c05(p []int) {
 			vAssume(ssb[k] != '\n')
 		}
 	}
-	if reg {
+	if reg == 1 {
 		redact.RegisterSafeType(reflect.TypeOf(regInt(0)))
+	} else if reg == 2 {
+		redact.RegisterSafeType(reflect.TypeOf((*regInt)(nil)))
 	}
 	if len(p) > 7 && p[7] > 0 {
 		c12History(p[7]-1, "h")
